@@ -3,6 +3,7 @@
 mod core;
 mod gen;
 mod mon;
+mod units;
 mod workload;
 
 use crate::core::{Case, Ctx, Tier};
